@@ -16,6 +16,8 @@ use std::fmt::Write;
 /// One entry of the draw log
 #[derive(Debug, Clone, Copy, PartialEq, Eq)]
 pub enum RngEvent {
+    /// `random(n)` is about to draw a value below the bound `n`
+    Bound(i64),
     /// A value was drawn from the generator
     Draw(i64),
     /// The generator was re-seeded by `resetRandom`
@@ -41,6 +43,10 @@ pub(crate) fn seed_override() -> Option<u64> {
 
 pub(crate) fn log_draw(value: i64) {
     LOG.with(|l| l.borrow_mut().push(RngEvent::Draw(value)));
+}
+
+pub(crate) fn log_bound(bound: i64) {
+    LOG.with(|l| l.borrow_mut().push(RngEvent::Bound(bound)));
 }
 
 pub(crate) fn log_reset() {
